@@ -1039,6 +1039,7 @@ def run_batch(ctx, out, stats, progs=None):
     known = set(f.get("key") for f in core.load_findings("C04"))
     compared = 0
     seen_oracles = set()
+    shrink_left = 45.0       # seconds for minimising, all clauses together
     for tag, prog in (progs if progs is not None else programs(ctx)):
         n0 = len(out.failures)
         compared += run_history(prog, out, stats)
@@ -1048,7 +1049,11 @@ def run_batch(ctx, out, stats, progs=None):
             if f.get("key") in known or oracle is None or oracle in seen_oracles:
                 continue
             seen_oracles.add(oracle)
-            small, sf = shrink(f["history"], oracle, known)
+            if shrink_left <= 1:
+                continue
+            t0 = time.time()
+            small, sf = shrink(f["history"], oracle, known, budget_s=min(25.0, shrink_left))
+            shrink_left -= time.time() - t0
             if sf is not None:
                 f["history"] = small
                 f["what"] = sf["what"]
